@@ -76,6 +76,9 @@ func alternatives(p Position, withPanic, thorough bool) []string {
 		out = []string{"error", "null"}
 	case "resolver":
 		out = []string{"error"}
+		if withPanic && !p.List {
+			out = append(out, "errval")
+		}
 		if p.Nilable {
 			out = append(out, "null")
 		}
@@ -172,6 +175,9 @@ type MassSpec struct {
 	Thorough   bool
 	// Intercept: activate the fault-capable field interceptor (positions "~path")
 	Intercept bool
+	// ExtraCases are hand-written (operation, plan) pairs beyond the deviation bound
+	// (e.g. two deviations at mirrored alias paths).
+	ExtraCases []Case
 	// ExtraOps are hand-written operations (fault corpus etc.) prepended to the enumeration.
 	ExtraOps []Op
 }
@@ -229,6 +235,25 @@ func (s *Shared) RunMass(spec MassSpec, shard, nshard int, deadline time.Time) M
 				if res.SigCounts[sig] <= 2 {
 					res.Found = append(res.Found, CaseFound{Sig: sig, Msg: msg, Case: c})
 				}
+			}
+		}
+	}
+	for k, c := range spec.ExtraCases {
+		if k%nshard != shard {
+			continue
+		}
+		doc, errs := s.Parse(c.Op)
+		if errs != nil {
+			panic("extra case does not validate: " + c.Op.Text + ": " + errs[0].Message)
+		}
+		c.Intercept = spec.Intercept
+		in, x := s.RunCase(c, doc)
+		res.Cases++
+		res.Nontrivial++
+		if sig, msg := in.CheckSemantics(x); sig != "" {
+			res.SigCounts[sig]++
+			if res.SigCounts[sig] <= 2 {
+				res.Found = append(res.Found, CaseFound{Sig: sig, Msg: msg, Case: c})
 			}
 		}
 	}
